@@ -103,6 +103,9 @@ pub struct EnvCase {
     /// what stands between two blocks: "", "\n" (as the library writes) or "\r\n"
     #[serde(default)]
     pub sep: String,
+    /// block 4 written with CRLF line ends
+    #[serde(default)]
+    pub crlf: bool,
 }
 
 impl EnvCase {
@@ -117,12 +120,16 @@ impl EnvCase {
             s.push('}');
             s.push_str(sep);
         }
-        s.push_str("{4:\n");
-        s.push_str(&self.body);
+        let mut b4 = String::from("{4:\n");
+        b4.push_str(&self.body);
         if !self.marker.is_empty() {
-            s.push_str(&format!(":77T:ENVELOPE {} CONTENT\n", self.marker));
+            b4.push_str(&format!(":77T:ENVELOPE {} CONTENT\n", self.marker));
         }
-        s.push_str("-}");
+        b4.push_str("-}");
+        if self.crlf {
+            b4 = b4.replace('\n', "\r\n");
+        }
+        s.push_str(&b4);
         if let Some(t) = &self.b5 {
             s.push_str(sep);
             s.push_str("{5:");
@@ -258,7 +265,14 @@ pub fn gen_b3_value(tag: &str, src: &mut Src) -> String {
             )
         }
         "115" => format!("ADDR{}", xtext(src, 1, 28)),
-        "165" => format!("{}/{}", upper(src, 3), format!("PRI{}", xtext(src, 1, 30))),
+        "165" => {
+            // 3!c/34x: the information part may itself contain a slash
+            if src.chance(1, 3) {
+                format!("{}/REL/{}", upper(src, 3), xtext(src, 1, 20))
+            } else {
+                format!("{}/{}", upper(src, 3), format!("PRI{}", xtext(src, 1, 30)))
+            }
+        }
         "433" => {
             let c = src.pick(&["AOK", "FPO", "NOK"]).to_string();
             match src.below(3) {
@@ -365,6 +379,7 @@ pub fn gen_env(mt: &str, src: &mut Src) -> EnvCase {
         near_miss: String::new(),
         marker: String::new(),
         sep: src.pick(&["", "", "\n", "\r\n"]).to_string(),
+        crlf: src.chance(1, 3),
     };
     match src.below(10) {
         0 => {
@@ -796,7 +811,7 @@ pub fn hdr_oracle(c: &HdrCase, obs: &mut Obs) -> Vec<Violation> {
 }
 
 pub fn run(ctx: &Ctx) {
-    ctx.add_rule("envelopes built from the documented header components: block 1 (app id, service id, 12-char LT, session, sequence), block 2 input (17/18/21 chars) and output (46/47), any subset/rotation of the 13 documented block-3 tags and 8 block-5 tags, blocks 3/5 present or absent, blocks written back to back or separated by LF or CRLF, around a minimal valid body of each of the 30 types; near misses (block-1 length, I/O header lengths, direction letter); block markers embedded in a 77T value; plus direct Header::parse/Display pairs; non-trivial = has an optional component / tag / near miss; distinct by text");
+    ctx.add_rule("envelopes built from the documented header components: block 1 (app id, service id, 12-char LT, session, sequence), block 2 input (17/18/21 chars) and output (46/47), any subset/rotation of the 13 documented block-3 tags and 8 block-5 tags, blocks 3/5 present or absent, blocks written back to back or separated by LF or CRLF, block 4 with LF or CRLF line ends, around a minimal valid body of each of the 30 types; near misses (block-1 length, I/O header lengths, direction letter); block markers embedded in a 77T value; plus direct Header::parse/Display pairs; non-trivial = has an optional component / tag / near miss; distinct by text");
     ctx.assume("own sequential block splitter: blocks 1,2 end at the first `}`, 3 and 5 by brace matching, 4 at `-}`");
     ctx.assume("a block-3/5 tag counts as recognised when the parsed header's JSON holds its value (or its parts)");
     let to_json = |c: &EnvCase| serde_json::to_value(c).unwrap();
